@@ -6,9 +6,9 @@
    Output: on a failure the case is REDUCED to the table and the first failing request, itself a valid case
    line, and printed as SPECFAIL/MISMATCH <reduced line>; the full line is also printed as "DRIFT <line>" only so
    that the runner's extraction-vs-vm_compute cross-check knows that this sampled line is a failing one
-   (drift is always reported as 0 in STATS; no byte-level comparison exists for C04). *)
+   (no byte-level comparison exists for C04; the drift number in STATS counts rejects_more tables, see below). *)
 let () =
-  let cases = ref 0 and reqs = ref 0 and specfail = ref 0 and mismatch = ref 0 and rejected = ref 0
+  let cases = ref 0 and reqs = ref 0 and specfail = ref 0 and mismatch = ref 0 and rejected = ref 0 and rejmore = ref 0
   and matched = ref 0 and noroute = ref 0 in
   iter_lines Sys.argv.(1) (fun line ->
     match split_ws line with
@@ -43,13 +43,15 @@ let () =
             q_obs = { o_who = who; o_any = bytes_of_hex any; o_vals = vals } }) in
         incr cases; reqs := !reqs + nreq;
         (match check_case routes reg names qs with
-         | (VOk, _) -> ()
-         | (VSpecFail, i) ->
+         | ((VOk, _), more) -> if more then incr rejmore
+         | ((VSpecFail, i), _) ->
              incr specfail; Printf.printf "SPECFAIL %s\n" (reduced (int_of_nat i));
              if nreq > 1 then Printf.printf "DRIFT %s\n" line
-         | (VMismatch, i) ->
+         | ((VMismatch, i), _) ->
              incr mismatch; Printf.printf "MISMATCH %s\n" (reduced (int_of_nat i));
              if nreq > 1 then Printf.printf "DRIFT %s\n" line)
     | _ -> ());
-  Printf.printf "STATS cases=%d specfail=%d mismatch=%d drift=0 requests=%d matched=%d noroute=%d rejected_tables=%d\n"
-    !cases !specfail !mismatch !reqs !matched !noroute !rejected
+  (* rejects_more: tables in which Handle rejected a route the specification accepts (a stricter implementation): nothing
+     is judged there, reported as drift *)
+  Printf.printf "STATS cases=%d specfail=%d mismatch=%d drift=%d requests=%d matched=%d noroute=%d rejected_tables=%d rejects_more=%d\n"
+    !cases !specfail !mismatch !rejmore !reqs !matched !noroute !rejected !rejmore
